@@ -2,7 +2,7 @@
 // ASSUME: GALOIS_FORCE_STANDALONE (the repository's own switch) routes every FixedSizeHeap of the Pow_2_BlockHeap table to MallocHeap, so the per-class heap identity is not observable here: 'alloc and dealloc pick the same class' is checked on the class index (nextLog2) and, end to end, by CBMC's free()/bounds checks on the returned block; the thread-private sized heaps behind the table are covered by the C09_heaps obligations
 // ASSUME: the Pow_2_BlockHeap object is built in place (heapTable constructed, real populateTable() called) because its out-of-line constructor is compiled out by GALOIS_FORCE_STANDALONE; malloc never fails
 // OB: ob_pow2_class tier=quick unwind=18 timeout=300 bounds="Pow_2_BlockHeap::nextLog2(size): ALL sizes 0..65536 symbolic" desc="class index i satisfies 3<=i<=16 (inside the 17-entry heapTable), 2^i >= size, and i==3 or 2^(i-1) < size (least power of two >= max(size,8)); the index is the same for the allocating and the freeing call"
-// OB: ob_pow2_alloc tier=quick unwind=40 timeout=300 params=15 bounds="Pow_2_BlockHeap::allocateBlock/deallocateBlock on a populated 17-entry table: size class k=3..16 by vf_param (size symbolic in (2^(k-1),2^k], k=3: 1..8) and the malloc back-up class (65537..70000)" desc="block non-null, 8-aligned, writable at its first and last requested byte (CBMC bounds check against the real block length), two live blocks disjoint, deallocateBlock frees exactly the block that was handed out (CBMC free checks)"
+// OB: ob_pow2_alloc tier=quick unwind=40 timeout=300 params=15 bounds="Pow_2_BlockHeap::allocateBlock/deallocateBlock on a populated 17-entry table: size class k=3..16 by vf_param (size symbolic in (2^(k-1),2^k], k=3: 1..8) and the malloc back-up class (65537..70000)" desc="block non-null, 8-aligned, writable at its first and last requested byte (CBMC bounds check against the real block length), two live blocks disjoint, the block of class k is usable for the whole class size 2^k (it is recycled for any request of that class), deallocateBlock frees exactly the block that was handed out (CBMC free checks)"
 #include "vf.h"
 #include "galois/runtime/Mem.h"
 #include "vf_standalone.h"
@@ -35,6 +35,9 @@ OB(pow2_alloc) {
   else vf_assume(size > 65536 && size <= 70000);
   char* p = (char*)h->allocateBlock(size);
   VF_CHECKM(p != nullptr && ((uint64_t)(uintptr_t)p & 7) == 0, "non-null, 8-aligned");
+  // a block of class k returns to class k's free list on deallocation and may then serve ANY request of that class:
+  // it must be usable for the whole class size 2^k (CBMC bounds check / ASan against the real block length)
+  if (k <= 16) p[((uint64_t)1 << k) - 1] = 5;
   p[0]        = 1;
   p[size - 1] = 2;
   char* q = (char*)h->allocateBlock(size);
